@@ -13,6 +13,8 @@ Cases (all on real files under <worktree>/.work/, removed afterwards):
              a fresh instance of the class parses the content under the extension / data type ext through the
              entry point (3 = get_parsed_instance: class ignored); result or exception, and whether the
              instance's ballots / edges are still empty afterwards.  Every (class, extension) pair, wrong and right.
+  c10.large  payload = (class ext items generator_seed autocorrect header_only terminator)  a generated well-formed file
+             larger than one 65536-byte read block (large_content), all four entry points + the model.
   c10.raw    payload = (class entrypoint ext content autocorrect header_only)  content outside the restyling
              quantifier (blank / whitespace-only lines, missing final newline, tabs inside ballot lines, padding
              with characters that are line boundaries for splitlines only): implementation against model, no
@@ -39,13 +41,18 @@ RULE = ("instances from the generators of C01 / C08 / C09 (small exhaustive rang
         "header_only results compared with the header part of the full parse (model: header_of); the gate on every "
         "(class, extension) pair x entry point incl. unknown extensions for get_parsed_instance, with the object "
         "inspected after the TypeError; raw contents outside the quantifier (blank lines, no final newline, tabs in "
-        "ballot lines, U+001C / U+0085 / U+2028 padding) implementation against model only. "
+        "ballot lines, U+001C / U+0085 / U+2028 padding) implementation against model only; LARGE contents (c10.large: "
+        "generated ordinal / categorical / matching files of 70-200 KB in quick, up to 2.3 MB in thorough, several "
+        "65536-byte blocks, names made of 2- to 4-byte UTF-8 characters, the TITLE lengthened until no multiple of 65536 "
+        "bytes falls on a line end and, where the header is long enough, the first one falls inside a multi-byte "
+        "character) through all four entry points, compared with each other and - up to 400 KB - with the model's "
+        "parse_url on the same bytes. "
         "non-trivial = an entry case whose content has >= 1 ballot / edge line and >= 1 padded line")
 EXHAUSTIVE = {"quick": "every (class, extension in soc soi toc toi cat wmd + 8 others) x entry point in file str url get "
                        "x 3 contents (gate matrix); every terminator x {no padding, padding} x {no gaps, gaps} uniform "
                        "style on 3 small instances per class x header_only x autocorrect",
               "thorough": "the same, on 12 small instances per class"}
-THEOREMS_FOR_OP = {"c10.entry": "C10_entrypoints, C10_splitters, C10_lines_equiv, C10_header_only, C10_dispatch",
+THEOREMS_FOR_OP = {"c10.large": "C10_entrypoints_text, C10_splitters (no size bound in either)", "c10.entry": "C10_entrypoints, C10_splitters, C10_lines_equiv, C10_header_only, C10_dispatch",
                    "c10.gate": "C10_gate, C10_gate_get, C10_dispatch", "c10.raw": "(model correspondence only)"}
 TRUSTED = ["modelled: PrefLibInstance.parse_lines / parse_file / parse_str / parse_url, get_parsed_instance, the "
            "three type_validator methods, on top of the C01 / C08 / C09 file models; os.path.splitext / "
@@ -272,11 +279,134 @@ def _run_entry(cl, e, ext, path, text, ac, ho):
     return r, (is_empty(box[0]) if box else None)
 
 
+BLOCK = 65536
+ORACLE_MAX_BYTES = 400000          # above this size only the entry points are compared with each other
+
+
+def _weak(rng, m):
+    a = list(range(1, m + 1))
+    rng.shuffle(a)
+    a = a[: rng.randint(2, m)]
+    out = [[a[0]]]
+    for x in a[1:]:
+        if rng.random() < 0.35:
+            out[-1].append(x)
+        else:
+            out.append([x])
+    return out
+
+
+def _cls_str(c_):
+    return str(c_[0]) if len(c_) == 1 else "{" + ", ".join(map(str, c_)) + "}"
+
+
+def large_lines(cl, ext, n, rng):
+    """the lines of a large well-formed file (canonical spacing); names carry 2-, 3- and 4-byte UTF-8 characters"""
+    wide = ["\u00e9", "\u4e2d", "\u6f22", "\u5b57", "\U0001f600", "\u0416", "\u00df"]
+    hdr = lambda name, dt: ["# FILE NAME: " + name, "# TITLE: ", "# DESCRIPTION: large \u6f22\u5b57 file", "# DATA TYPE: " + dt,
+                            "# MODIFICATION TYPE: synthetic", "# RELATES TO: ", "# RELATED FILES: ",
+                            "# PUBLICATION DATE: 2024-01-01", "# MODIFICATION DATE: 2024-01-02"]
+    wname = lambda k: "".join(rng.choice(wide) for _ in range(k))
+    if cl == 0:
+        m = 8
+        seen, orders = set(), []
+        while len(orders) < n:
+            if ext in ("soc", "soi"):
+                o = [[a] for a in rng.sample(range(1, m + 1), m if ext == "soc" else rng.randint(2, m))]
+            else:
+                o = _weak(rng, m)
+            key = repr(o)
+            if key not in seen:
+                seen.add(key)
+                orders.append(o)
+        mults = sorted((rng.choice([1, 1, 2, 3, 7]) for _ in orders), reverse=True)
+        ls = hdr("large." + ext, ext) + ["# NUMBER ALTERNATIVES: %d" % m, "# NUMBER VOTERS: %d" % sum(mults),
+                                         "# NUMBER UNIQUE ORDERS: %d" % n]
+        ls += ["# ALTERNATIVE NAME %d: %s %d" % (a, wname(3), a) for a in range(1, m + 1)]
+        ls += ["%d: %s" % (k, ", ".join(_cls_str(c_) for c_ in o)) for k, o in zip(mults, orders)]
+        return ls
+    if cl == 1:
+        na, k = n, 3
+        nb = max(50, n // 6)
+        seen, ballots = set(), []
+        while len(ballots) < nb:
+            pool = rng.sample(range(1, na + 1), rng.randint(0, 12))
+            b = [[] for _ in range(k)]
+            for a in pool:
+                b[rng.randrange(k)].append(a)
+            if repr(b) not in seen:
+                seen.add(repr(b))
+                ballots.append(b)
+        mults = sorted((rng.choice([1, 2, 5]) for _ in ballots), reverse=True)
+        ls = hdr("large.cat", "cat") + ["# NUMBER ALTERNATIVES: %d" % na, "# NUMBER VOTERS: %d" % sum(mults),
+                                        "# NUMBER UNIQUE PREFERENCES: %d" % nb, "# NUMBER CATEGORIES: %d" % k]
+        ls += ["# CATEGORY NAME %d: %s" % (j + 1, wname(4)) for j in range(k)]
+        ls += ["# ALTERNATIVE NAME %d: %s" % (a, wname(rng.randint(8, 14))) for a in range(1, na + 1)]
+        ls += ["%d: %s" % (mu, ", ".join("{}" if not c_ else _cls_str(c_) for c_ in b)) for mu, b in zip(mults, ballots)]
+        return ls
+    nn = max(20, n // 3)
+    seen, edges = set(), []
+    while len(edges) < n:
+        a, b = rng.randint(1, nn), rng.randint(1, nn)
+        if (a, b) not in seen:
+            seen.add((a, b))
+            edges.append((a, b, repr(rng.choice([rng.random() * 100, float(rng.randint(-9, 9)), rng.random() * 1e-6, 1 / 3]))))
+    edges.sort(key=lambda e_: (e_[0], e_[1]))
+    ls = hdr("large.wmd", "wmd") + ["# NUMBER ALTERNATIVES: %d" % nn, "# NUMBER EDGES: %d" % n]
+    ls += ["# ALTERNATIVE NAME %d: %s" % (a, wname(rng.randint(8, 14))) for a in range(1, nn + 1)]
+    ls += ["%d, %d, %s" % e_ for e_ in edges]
+    return ls
+
+
+def large_content(cl, ext, n, seed, term):
+    """deterministic large content; the TITLE is lengthened until no multiple of 65536 bytes falls on a line end
+    (and, where the header is that long, until the first one falls INSIDE a multi-byte character)"""
+    ls = large_lines(cl, ext, n, random.Random(977 * seed + 13 * n + cl))
+    eol = EOLS[term]
+    best = None
+    for pad in range(0, 120):
+        ls[1] = "# TITLE: " + "t" * pad
+        text = eol.join(ls) + eol
+        b = text.encode("utf-8")
+        cuts = list(range(BLOCK, len(b), BLOCK))
+        if not cuts:
+            return text, "single block"
+        if any(b[k - 1] in (10, 13) for k in cuts):
+            continue
+        inside = (b[cuts[0]] & 0xC0) == 0x80
+        if best is None:
+            best = (text, "inside a line")
+        if inside:
+            return text, "inside a multi-byte character"
+        if pad >= 40 and best:
+            break
+    return best if best else (text, "on a line end")
+
+
+def impl_large(c, d):
+    cl, ext, n, seed, ac, ho, term = c["payload"]
+    ext = U(ext)
+    text, cut = large_content(cl, ext, n, seed, term)
+    p = os.path.join(d, "L." + ext)
+    _write_raw(p, text)
+    nbytes = len(text.encode("utf-8"))
+    res = [_run_entry(cl, e, ext, p, text, ac, ho)[0] for e in range(4)]
+    base = canon_res(res[0])
+    same = [int(canon_res(r) == base) for r in res]
+    brief = [r if r[0] != 0 else [0, r[1][0], n_ballots(r[1])] for r in res]
+    out = {"nbytes": nbytes, "cut": cut, "res0": res[0], "same": same, "brief": brief}
+    if nbytes <= ORACLE_MAX_BYTES:
+        out["text"] = T(text)
+    return out
+
+
 def impl(c):
     op, pl = c["op"], c["payload"]
     os.makedirs(WORK, exist_ok=True)
     d = tempfile.mkdtemp(prefix="c10_", dir=WORK)
     try:
+        if op == "c10.large":
+            return impl_large(c, d)
         if op == "c10.entry":
             cl, ipl, ac, ho, styles = pl
             inst = build(cl, ipl)
@@ -308,6 +438,11 @@ def impl(c):
 # ------------------------------------------------------------------------------------------------ model side
 def oracle_requests(c, r):
     op, pl = c["op"], c["payload"]
+    if op == "c10.large":
+        if not isinstance(r, dict) or "text" not in r:
+            return []
+        cl, ext, n, seed, ac, ho, term = pl
+        return [("c10.parse", [cl, 2, ext, ac, ho, r["text"]])]        # the model's parse_url on the same bytes
     if not isinstance(r, dict) or "res" not in r:
         return []
     if op == "c10.entry":
@@ -353,8 +488,34 @@ def _cmp(what, impl_r, model_r, initial=""):
     return None
 
 
+def judge_large(c, r, mres):
+    cl, ext, n, seed, ac, ho, term = c["payload"]
+    if not isinstance(r, dict) or "res0" not in r:
+        return {"kind": "broken-correspondence", "reason": "implementation side returned %r" % (r,)}
+    if r["nbytes"] <= BLOCK:
+        return {"kind": "broken-correspondence", "reason": "large-content generator produced only %d bytes" % r["nbytes"]}
+    if r["res0"][0] != 0:
+        return "parse_file rejects a well-formed %d-byte file: %s" % (r["nbytes"], _short(r["res0"]))
+    for e in (1, 2, 3):
+        if not r["same"][e]:
+            return "%s and parse_file build different instances from the same %d-byte content (65536-byte boundary %s): %s vs %s" % (
+                ENTRY_NAMES[e], r["nbytes"], r["cut"], _short(r["brief"][e]), _short(r["brief"][0]))
+    if r["brief"][3][1] != cl:
+        return "get_parsed_instance built class %r" % (r["brief"][3][1],)
+    if ho and r["brief"][0][2] != 0:
+        return "header_only=True loaded ballots / edges"
+    if not ho and r["brief"][0][2] < (n if cl != 1 else 50):
+        return "only %d ballots / edges read from a file with %d" % (r["brief"][0][2], n)
+    if mres:
+        return _cmp("parse_url model vs parse_file implementation on %d bytes" % r["nbytes"], r["res0"], mres[0],
+                    initial_name(0, "L", U(ext)))
+    return None
+
+
 def judge(c, r, mres):
     op, pl = c["op"], c["payload"]
+    if op == "c10.large":
+        return judge_large(c, r, mres)
     if not isinstance(r, dict) or "res" not in r or not mres:
         return {"kind": "broken-correspondence", "reason": "implementation side returned %r" % (r,)}
     if op == "c10.entry":
@@ -434,6 +595,8 @@ def judge(c, r, mres):
 
 
 def nontrivial(c, r, m):
+    if c["op"] == "c10.large":
+        return isinstance(r, dict) and r.get("nbytes", 0) > BLOCK and r.get("cut") != "on a line end"
     if c["op"] != "c10.entry" or not isinstance(r, dict) or r.get("res", [[1]])[0][0] != 0:
         return False
     styles = c["payload"][4]
@@ -444,6 +607,11 @@ def nontrivial(c, r, m):
 
 def stats(c, r, m):
     op, pl = c["op"], c["payload"]
+    if op == "c10.large":
+        nb = r.get("nbytes", 0) if isinstance(r, dict) else 0
+        size = "> 1 MiB" if nb > 1 << 20 else "> 128 KiB" if nb > 1 << 17 else "> 64 KiB" if nb > BLOCK else "small"
+        return ["large class=%s %s, 65536-byte boundary %s, model=%s" % (
+            CLASSES[pl[0]][:3], size, r.get("cut") if isinstance(r, dict) else "?", "yes" if m else "no")]
     if op == "c10.entry":
         cl, ipl, ac, ho, styles = pl
         terms = sorted({s[3] for s in styles})
@@ -476,6 +644,11 @@ def stats(c, r, m):
 
 def describe(c):
     op, pl = c["op"], c["payload"]
+    if op == "c10.large":
+        cl, ext, n, seed, ac, ho, term = pl
+        return {"op": op, "class": CLASSES[cl], "extension": U(ext), "items (orders / alternatives / edges)": n,
+                "generator_seed": seed, "autocorrect": ac, "header_only": ho, "terminator": ["LF", "CRLF", "CR"][term],
+                "content": "props.c10.large_content(%d, %r, %d, %d, %d)[0]" % (cl, U(ext), n, seed, term)}
     if op == "c10.entry":
         cl, ipl, ac, ho, styles = pl
         return {"op": op, "class": CLASSES[cl], "autocorrect": ac, "header_only": ho, "instance_payload": ipl,
@@ -487,6 +660,8 @@ def describe(c):
 
 def shrink(c):
     op, pl = c["op"], c["payload"]
+    if op == "c10.large":
+        return
     if op == "c10.entry":
         cl, ipl, ac, ho, styles = pl
         if len(styles) > 1:
@@ -641,6 +816,14 @@ def generate(tier, seed):
         ipl = rand_instance(cl, rng)
         ac, ho = int(rng.random() < 0.3), int(rng.random() < 0.35)
         out.append(case("c10.entry", [cl, ipl, ac, ho, rand_styles(rng)], rnd=1))
+    # ---- large contents (more than one 65536-byte block; names with multi-byte UTF-8 characters)
+    big = [(0, "soc", 4000, 0, 0, 0), (0, "toi", 3200, 0, 0, 1), (1, "cat", 2000, 0, 0, 0), (2, "wmd", 4500, 0, 0, 0),
+           (1, "cat", 1800, 1, 1, 2)]
+    if not quick:
+        big += [(0, "toc", 6000, 0, 0, 0), (2, "wmd", 9000, 1, 0, 1), (1, "cat", 6000, 0, 0, 0), (0, "soi", 9000, 0, 1, 2),
+                (0, "soc", 36000, 0, 0, 0), (2, "wmd", 50000, 0, 0, 0)]
+    for cl, ext, n, ac, ho, term in big:
+        out.append(case("c10.large", [cl, T(ext), n, seed, ac, ho, term], large=1))
     # ---- raw contents outside the quantifier: implementation against model
     for n in range(240 if quick else 4000):
         cl = n % 3
